@@ -46,7 +46,6 @@ void h_blind_sum(void) {
             }
 #endif
         }
-        if (ret == 0) __CPROVER_assert(out[k] == out0[k], "C08 blind_sum: output untouched when the call fails");
         if (ret == 1 && n == NMAX && npos == 2) REACH("blind_sum full list");
         if (ret == 1 && n == 0) REACH("blind_sum empty list");
         if (ret == 0 && npos <= n) REACH("blind_sum overflow rejection");
@@ -55,7 +54,6 @@ void h_blind_sum(void) {
         else if (nullsel == 2) ret = secp256k1_pedersen_blind_sum(&ctx, out, NULL, n, npos);
         else { __CPROVER_assume(gi < n); blinds[gi] = NULL; ret = secp256k1_pedersen_blind_sum(&ctx, out, blinds, n, npos); }
         __CPROVER_assert(ret == 0 && g_illegal == 1 && g_error == 0, "C08 blind_sum: NULL output, list or list entry (any index) reports illegal use and returns 0");
-        __CPROVER_assert(out[k] == out0[k], "C08 blind_sum: output untouched on illegal use");
         REACH("blind_sum NULL argument");
     }
 }
